@@ -134,8 +134,8 @@ impl Check for C05 {
             .collect();
         // the firmware upload: same terminal, same rules, answers are data blocks
         let n = match tier {
-            Tier::Quick => 2_500,
-            Tier::Thorough => 60_000,
+            Tier::Quick => 10_000,
+            Tier::Thorough => 200_000,
         };
         out.push(Family::new("firmware_upload_scripts", n, false, |_, rng| {
             C05Plan::Upload(crate::c11::random_plan(rng, 4096))
@@ -251,8 +251,8 @@ fn seq_families(tier: Tier, _seed: u64) -> Vec<Family<ExPlan>> {
             }));
         }
         let count = match tier {
-            Tier::Quick => 60_000,
-            Tier::Thorough => 2_000_000,
+            Tier::Quick => 300_000,
+            Tier::Thorough => 8_000_000,
         };
         fams.push(Family::new("random_scripts", count, false, move |_i, rng| random_plan(rng, 40)));
         fams
